@@ -2283,7 +2283,11 @@ impl QueryRouter {
     }
 
     fn cache_key_for_query(command: &str) -> String {
-        format!("query:{}", command.trim().to_lowercase())
+        // The statement text itself is the key. Lower-casing it (as was done to let
+        // `select` hit an entry cached for `SELECT`) also folded string literals and
+        // identifiers, which are case-sensitive: `WHERE s = 'bob'` was answered with the
+        // rows cached for `WHERE s = 'Bob'`.
+        format!("query:{}", command.trim())
     }
 
     fn try_cache_get(&self, command: &str) -> Option<QueryResult> {
